@@ -112,7 +112,13 @@ func (m *Mempool[T]) Add(ctx context.Context, items []T) {
 }
 
 func (m *Mempool[T]) add(items []T, front bool) {
-	for _, item := range items {
+	for i := range items {
+		item := items[i]
+		if front {
+			// Every item is pushed to the front on its own: walk the block
+			// backwards so that it keeps its relative (arrival) order.
+			item = items[len(items)-1-i]
+		}
 		sender := item.GetSponsor()
 
 		// Ensure no duplicate
@@ -356,13 +362,16 @@ func (m *Mempool[T]) FinishStreaming(ctx context.Context, restorable []T) int {
 
 	restored := len(restorable)
 	m.streamedItems = nil
-	m.add(restorable, true)
+	// Items prefetched for a stream that never happened arrived after the
+	// given-back items: put them back first so the given-back items end up in
+	// front of them.
 	if m.nextStreamFetched {
 		m.add(m.nextStream, true)
 		restored += len(m.nextStream)
 		m.nextStream = nil
 		m.nextStreamFetched = false
 	}
+	m.add(restorable, true)
 	m.streamLock.Unlock()
 	return restored
 }
